@@ -48,6 +48,16 @@ def run(ctx):
                 "beyond 2^53, strings over an alphabet with characters below and above the quote, booleans, dates, patterns, "
                 "lists of these; all lists of length <= 5 (thorough 7) over 3 keys with tags for sorted with/without key/cmp; "
                 "non-trivial = the values of a pair are not identical")
+    # mixed int / decimal pairs around the points where converting an int to a decimal starts to round
+    import math
+    nb = []
+    for k in ((53, 54, 63, 64, 100) if not ctx.thorough else (52, 53, 54, 55, 60, 63, 64, 65, 70, 100, 200)):
+        base = 2 ** k
+        for sign in (1, -1):
+            nb += [('i', sign * (base + d)) for d in (-3, -2, -1, 0, 1, 2, 3)]
+            f = float(base)
+            nb += [('d', sign * f), ('d', sign * math.nextafter(f, math.inf)), ('d', sign * math.nextafter(f, 0.0))]
+    pools["num-boundary"] = nb
     it, _ = common.fresh_interpreter(True, False)
     env = it.environment
     reqs, meta = [], []
@@ -156,6 +166,18 @@ def run(ctx):
                         break
             reqs.append(f"(canon {proto.to_sx(('S', tuple(items)))})")
             meta.append(("setenum", items, None, [proto.enum_form(x) for x in got]))
+            # ... in every syntactic form that enumerates a set or the keys of a map
+            env.put("s", s)
+            env.put("m", m)
+            want_txt = str(proto.to_ckl(('l', tuple(got))))
+            for src in ("def r = []; for x in s do append(r, x) end; r", "[x for x in s]", "list(s)", "[...s]", "def [e0, e1, e2, e3, e4, e5] = s; [e0, e1, e2, e3, e4, e5][0 to length(s)]",
+                        "def r = []; for k in keys m do append(r, k) end; r", "[k for k in keys m]", "[...m]", "[e[0] for e in entries m]",
+                        "def r = []; for e in entries m do append(r, e[0]) end; r", "sorted(list(s))", "sorted([...m])"):
+                out = common.run_program(it, src)
+                ctx.count("enumeration_programs")
+                if out[:2] != ('val', want_txt):
+                    ctx.violation("oracle", f"`{src}` over the set / map keys {[proto.show(z) for z in items]} gives {out[:2]}, the ascending enumeration is {want_txt}",
+                                  {"op": "enum-program", "src": src, "items": [proto.to_sx(x) for x in items]})
     # ---- sorted: permutation, ordered, stable — exhaustive small lists with duplicate keys
     keys = [('i', 1), ('d', 1.0), ('i', 2), ('d', 0.5)]
     maxlen = 7 if ctx.thorough else 5
